@@ -190,7 +190,7 @@ def cmd_discover(args):
             print(f"   Suggested merchant: {merchant}")
             print()
             print(f"   {C.DIM}[{merchant}]")
-            print(f"   match: contains(\"{pattern}\")")
+            print(f"   match: {suggest_match_expr(pattern)}")
             print(f"   category: CATEGORY")
             print(f"   subcategory: SUBCATEGORY")
             if stats['has_negative']:
@@ -211,7 +211,9 @@ def suggest_pattern(description):
     desc = re.sub(r'\s+\d{4,}.*$', '', desc)  # Remove trailing numbers (store IDs)
     desc = re.sub(r'\s+[A-Z]{2}$', '', desc)  # Remove trailing state codes
     desc = re.sub(r'\s+\d{5}$', '', desc)  # Remove zip codes
-    desc = re.sub(r'\s+#\d+', '', desc)  # Remove store numbers like #1234
+    # Remove store numbers like #1234 and what follows them, so that what is left
+    # stays a contiguous part of the description (the pattern must match it)
+    desc = re.sub(r'\s+#\d+.*$', '', desc)
 
     # Remove common prefixes
     prefixes = ['APLPAY ', 'SQ *', 'TST*', 'SP ', 'PP*', 'GOOGLE *']
@@ -262,12 +264,24 @@ def suggest_merchant_name(description):
     return 'Unknown'
 
 
+def suggest_match_expr(pattern):
+    """Wrap a suggest_pattern() result in the match function that honours it.
+
+    suggest_pattern() returns a regular expression (escaped metacharacters, words
+    joined by \\s*), which contains() would compare literally and never find. Plain
+    single-word patterns stay a readable contains(); anything else becomes regex()
+    with a raw string literal so the backslashes reach the regex engine unchanged.
+    """
+    escaped_pattern = pattern.replace('"', '\\"')
+    if '\\' in pattern:
+        return f'regex(r"{escaped_pattern}")'
+    return f'contains("{escaped_pattern}")'
+
+
 def suggest_merchants_rule(merchant_name, pattern, tags=None):
     """Generate a suggested rule block in .rules format."""
-    # Escape quotes in pattern if needed
-    escaped_pattern = pattern.replace('"', '\\"')
     rule = f"""[{merchant_name}]
-match: contains("{escaped_pattern}")
+match: {suggest_match_expr(pattern)}
 category: CATEGORY
 subcategory: SUBCATEGORY"""
     if tags:
